@@ -63,8 +63,9 @@ def _list_slice(slize: Slice) -> List[Slice]:
 
     # Resolve "full-width" (and same-order) slices to their parent Signals
     if width(slize) == width(slize.parent) and slize.step == 1:
-        # Return a single-element list, after resolution
-        return [_resolve_sliceable(slize.parent)]
+        # Return the resolved parent: a single-element list, or the parts of a (flat) `Concat`
+        resolved = _resolve_sliceable(slize.parent)
+        return list(resolved.parts) if isinstance(resolved, Concat) else [resolved]
 
     if isinstance(slize.parent, Signal) and slize.step == 1:
         return [slize]  # Already all good! Just make a one-element list.
